@@ -35,33 +35,44 @@ pub mod proofs {
         kani::cover!(bin <= l && hop < l, "chunk yielded with frames remaining");
     }
 
-    /// a probe window function: gain == 1.5 + phase (not idempotent under repetition, unlike Rectangle)
+    /// a probe window function that COUNTS its evaluations: the t-th evaluation returns t + 1.5, whatever the phase.
+    /// (Under Kani the wrapped phase is always 0 — CBMC evaluates f64 `%` to 0.0 — so a phase-based probe could not tell
+    ///  positions apart; what Windowed::next must do is evaluate the window exactly once per frame, in order, and multiply;
+    ///  that each evaluation is at the right phase is Window::next's contract, verified by Verus in unit osc.)
     pub struct Probe;
-    impl dasp_window::Window<f64> for Probe { type Output = f64; fn window(phase: f64) -> f64 { phase + 1.5 } }
+    static mut EVALS: u32 = 0;
+    impl dasp_window::Window<f64> for Probe {
+        type Output = f64;
+        fn window(_phase: f64) -> f64 { unsafe { let t = EVALS; EVALS += 1; t as f64 + 1.5 } }
+    }
 
-    // (Window::new / Window::next — the phases i/(n-1) — are verified by Verus in unit osc: Kani 0.68 / CBMC 6.11 evaluates the
-    //  f64 `%` operator to 0.0 for every operand, so a Kani harness cannot observe a wrapped phase)
+    // (Window::new / Window::next — the phases i/(n-1) — are verified by Verus in unit osc)
 
-    /// chunk data path for concrete shapes and symbolic contents: chunk k holds frames k*h .. k*h+b-1, each scaled by the
-    /// window value (probe window: 1.5 + phase); exactly count(L, b, h) chunks
+    /// chunk data path for concrete shapes and symbolic contents (exact silence included): chunk k holds frames
+    /// k*h .. k*h+b-1, the j-th frame pulled from a chunk is multiplied by the j-th window evaluation of that chunk (one
+    /// evaluation per frame, none skipped or repeated); exactly count(L, b, h) chunks
     fn chunk_path<const L: usize>(bin: usize, hop: usize) {
         let data: [[f64; 1]; L] = core::array::from_fn(|_| { let x: f64 = kani::any(); kani::assume(x.is_finite() && x.abs() <= 1.0); [x] });
         let mut w: Windower<[f64; 1], Probe> = Windower::new(&data[..], bin, hop);
         let want = count(L, bin, hop);
         let mut k = 0usize;
+        unsafe { EVALS = 0; }
         while let Some(mut chunk) = w.next() {
             assert!(k < want, "P: more chunks than floor((L-b)/h)+1");
+            let base = unsafe { EVALS };
             let mut j = 0usize;
             while j < bin {
                 let f = chunk.next();
                 assert!(f.is_some());
-                let g = (j as f64 / (bin as f64 - 1.0)) % 1.0 + 1.5;      // (under Kani `%` yields 0.0: g == 1.5)
-                assert!(f.unwrap()[0].to_bits() == (data[k * hop + j][0] * g).to_bits(), "P: frame k*h+j scaled by the window value of position j");
+                let g = (base + j as u32) as f64 + 1.5;
+                assert!(f.unwrap()[0].to_bits() == (data[k * hop + j][0] * g).to_bits(), "P: frame k*h+j scaled by the window value of position j (one window evaluation per frame, in order)");
                 j += 1;
             }
+            assert!(unsafe { EVALS } == base + bin as u32, "P: exactly one window evaluation per frame");
             k += 1;
         }
         assert!(k == want, "P: fewer chunks than floor((L-b)/h)+1");
+        kani::cover!(L >= 2 && data[0][0] == 0.0 && data[1][0] != 0.0, "a silent frame followed by a non-silent one");
     }
     #[kani::proof] #[kani::unwind(8)] pub fn c20_chunk_path_l4_b3_h1() { chunk_path::<4>(3, 1) }
     #[kani::proof] #[kani::unwind(8)] pub fn c20_chunk_path_l5_b5_h2() { chunk_path::<5>(5, 2) }
